@@ -377,3 +377,25 @@ Proof.
   rewrite <- N.lxor_lor by assumption.
   symmetry; apply N.add_nocarry_lxor; assumption.
 Qed.
+
+(* ---- updN ---- *)
+Lemma lenN_updN {A} (l : list A) i v : lenN (updN l i v) = lenN l.
+Proof.
+  revert i; induction l as [|x t IH]; intro i; cbn [updN]; [reflexivity|].
+  destruct (i =? 0); rewrite !lenN_cons; [reflexivity|]. now rewrite IH.
+Qed.
+Lemma nth_optN_updN_same {A} (l : list A) i v : i < lenN l -> nth_optN (updN l i v) i = Some v.
+Proof.
+  revert i; induction l as [|x t IH]; intros i H; [cbn in H; lia|]. rewrite lenN_cons in H.
+  cbn [updN]. destruct (N.eqb_spec i 0) as [E|E]; cbn [nth_optN].
+  - subst i. reflexivity.
+  - destruct (N.eqb_spec i 0); [lia|]. apply IH. lia.
+Qed.
+Lemma nth_optN_updN_other {A} (l : list A) i k v : i <> k -> nth_optN (updN l i v) k = nth_optN l k.
+Proof.
+  revert i k; induction l as [|x t IH]; intros i k H; [reflexivity|].
+  cbn [updN]. destruct (N.eqb_spec i 0) as [E|E]; cbn [nth_optN].
+  - subst i. destruct (N.eqb_spec k 0); [lia|reflexivity].
+  - destruct (N.eqb_spec k 0); [reflexivity|]. apply IH. lia.
+Qed.
+
